@@ -266,6 +266,9 @@ func TestVerifC35(t *testing.T) {
 	defer vsched.Finish(t)
 	ms := time.Millisecond
 	timeouts := []time.Duration{1 * ms, 50 * ms, relocationHandoffWindow - ms, relocationHandoffWindow, relocationHandoffWindow + ms, 10 * time.Second}
+	if vsched.Rep().Thorough() { // more deadlines inside the window (none coincides with a script instant)
+		timeouts = append(timeouts, 120*ms, 400*ms, time.Second, 2*time.Second)
+	}
 	states := c35States()
 	e := vsched.NewEnum("handoff", map[string]any{
 		"timeouts": fmt.Sprint(timeouts), "states": len(states),
